@@ -189,6 +189,9 @@ def canon(test, truth: bool = True) -> set:
         parts = [ast.Call(func=test.func, args=[test.args[0], e], keywords=[]) for e in sorted(test.args[1].elts, key=norm)]
         return canon(ast.BoolOp(op=ast.Or(), values=parts) if len(parts) > 1 else parts[0], truth)
     if isinstance(test, ast.BoolOp):
+        member = _as_membership(test)
+        if member is not None:
+            return canon(member, truth)
         conj = isinstance(test.op, ast.And)
         if conj == truth:  # true conjunction / false disjunction: every part has that truth
             out = set()
@@ -247,6 +250,48 @@ def canon(test, truth: bool = True) -> set:
             left = right
         return out
     return {(norm(test), truth)}
+
+
+def _as_membership(test):
+    """`x == A or x == B [or ...]` is `x in (A, B, ...)`; `x != A and x != B` is `x not in (A, B)` - for one subject compared
+    with names / attribute chains / constants (enum members, module constants), where `in` and `==` agree."""
+    want = ast.Eq if isinstance(test.op, ast.Or) else ast.NotEq
+    subject, elts = None, []
+    if len(test.values) < 2:
+        return None
+    for v in test.values:
+        if isinstance(v, ast.UnaryOp) and isinstance(v.op, ast.Not) and isinstance(v.operand, ast.Compare) and len(v.operand.ops) == 1 \
+                and isinstance(v.operand.ops[0], ast.NotEq if want is ast.Eq else ast.Eq):
+            v = ast.Compare(left=v.operand.left, ops=[want()], comparators=v.operand.comparators)
+        if not (isinstance(v, ast.Compare) and len(v.ops) == 1 and isinstance(v.ops[0], want)):
+            return None
+        left, right = v.left, v.comparators[0]
+
+        def namelike(e):
+            return isinstance(e, ast.Constant) and e.value is not None and not isinstance(e.value, float) or (isinstance(e, (ast.Name, ast.Attribute)) and (dotted_text(e) or "").split(".")[-1].isupper())
+
+        if namelike(left) and not namelike(right):
+            left, right = right, left
+        if not namelike(right) or namelike(left):
+            return None
+        if subject is None:
+            subject = left
+        elif norm(subject) != norm(left):
+            return None
+        elts.append(right)
+    node = ast.Compare(left=subject, ops=[ast.In()], comparators=[ast.Tuple(elts=elts, ctx=ast.Load())])
+    return node if want is ast.Eq else ast.UnaryOp(op=ast.Not(), operand=node)
+
+
+def dotted_text(e):
+    parts = []
+    while isinstance(e, ast.Attribute):
+        parts.append(e.attr)
+        e = e.value
+    if isinstance(e, ast.Name):
+        parts.append(e.id)
+        return ".".join(reversed(parts))
+    return None
 
 
 def parse(pattern: str):
